@@ -866,6 +866,22 @@ class CallMixin:
             s.sset(recv.z, es, z3.Store(mem, xz, True))
             yield SV(NONE, NONEV), s
 
+    def m_set_update(self, recv, e, st):
+        for v, s in self.ev(e.args[0], st):
+            if isinstance(v, SeqV) or v.ty.kind != 'set':
+                _unsup('set.update with a non-set argument', e)
+            self.check_write(s, recv.z, e, 'update')
+            es = sort_of(recv.ty.args[0])
+            a, b = s.smem(recv.z, es), s.smem(v.z, es)
+            x = z3.Const('x!su', es)
+            mem = fresh('mem', z3.ArraySort(es, z3.BoolSort()))
+            s.assume(z3.ForAll([x], z3.Select(mem, x) == z3.Or(z3.Select(a, x), z3.Select(b, x))))
+            c = fresh('card', I)
+            s.assume(c >= self.card(recv, s), c >= self.card(v, s))
+            s.sset(recv.z, es, mem)
+            s.setH(key_card(), z3.Store(s.H(key_card()), recv.z, c))
+            yield SV(NONE, NONEV), s
+
     def bi_set(self, e, st):
         if e.args:
             for v, s in self.ev(e.args[0], st):
